@@ -47,6 +47,44 @@ pub struct Case {
     /// mint and burn blocks of one policy name one asset in one quantity: a mint and a burn cancel
     #[serde(default)]
     pub cancelling: bool,
+    /// how every redeemer wraps its identifying integer v (see `SHAPES`): 0 = the bare integer
+    #[serde(default)]
+    pub data_shape: usize,
+}
+
+/// redeemer data shapes: the bare integer, a constructor application `alt [v, h'c0de']` for alternatives on both sides
+/// of every encoding boundary (121 + alt up to 6, 1280 + (alt - 7) up to 127, the general form beyond), and a list
+const SHAPES: [&str; 9] = ["int", "constr-0", "constr-6", "constr-7", "constr-8", "constr-127", "constr-128", "constr-1000", "list"];
+
+fn shape_alt(shape: usize) -> Option<u64> {
+    SHAPES[shape].strip_prefix("constr-").and_then(|a| a.parse().ok())
+}
+
+fn wrap(shape: usize, v: i128) -> tir::Expression {
+    match shape_alt(shape) {
+        _ if shape == 0 => tir::Expression::Number(v),
+        Some(alt) => tir::Expression::Struct(tir::StructExpr { constructor: alt as usize, fields: vec![tir::Expression::Number(v), tir::Expression::Bytes(vec![0xc0, 0xde])] }),
+        None => tir::Expression::List(vec![tir::Expression::Number(v), tir::Expression::Bytes(vec![0xc0, 0xde])]),
+    }
+}
+
+/// the identifying integer of a decoded redeemer when it has exactly the shape written in the template
+fn unwrap(shape: usize, d: &PData) -> Result<i128, String> {
+    let int = |d: &PData| match d {
+        PData::Int(i) => i.to_i128().ok_or_else(|| "integer beyond i128".to_string()),
+        other => Err(format!("{other} where the integer is written")),
+    };
+    let pair = |items: &Vec<PData>| match items.as_slice() {
+        [v, PData::Bytes(b)] if b == &vec![0xc0, 0xde] => int(v),
+        other => Err(format!("fields {:?}", other.iter().map(|x| x.to_string()).collect::<Vec<_>>())),
+    };
+    match (shape_alt(shape), d) {
+        _ if shape == 0 => int(d),
+        (Some(alt), PData::Constr(a, fields)) if *a == alt => pair(fields),
+        (Some(alt), other) => Err(format!("{other} where alternative {alt} is written")),
+        (None, PData::List(items)) => pair(items),
+        (None, other) => Err(format!("{other} where a list is written")),
+    }
 }
 
 /// reward accounts whose order by bare credential (script 10.., key 50.., key 90..) is not their order as accounts
@@ -74,7 +112,7 @@ fn build(case: &Case) -> tir::Tx {
         tx.inputs.push(tir::Input {
             name: format!("in{b}"),
             utxos: tir::Expression::UtxoSet(set),
-            redeemer: tir::Expression::Number(100 + b as i128),
+            redeemer: wrap(case.data_shape, 100 + b as i128),
         });
     }
     if case.with_redeemerless_input {
@@ -97,7 +135,7 @@ fn build(case: &Case) -> tir::Tx {
             } else {
                 tirb::assets(vec![tirb::token(&policy(*p), format!("T{k}").as_bytes(), if *is_burn { 2 } else { 5 })])
             },
-            redeemer: if *red { tir::Expression::Number(200 + *p as i128) } else { tir::Expression::None },
+            redeemer: if *red { wrap(case.data_shape, 200 + *p as i128) } else { tir::Expression::None },
         };
         if *is_burn {
             tx.burns.push(m);
@@ -111,7 +149,7 @@ fn build(case: &Case) -> tir::Tx {
             data: std::collections::HashMap::from([
                 ("credential".to_string(), tir::Expression::Address(reward_account(*w))),
                 ("amount".to_string(), tir::Expression::Number(10 + *w as i128)),
-                ("redeemer".to_string(), tir::Expression::Number(300 + *w as i128)),
+                ("redeemer".to_string(), wrap(case.data_shape, 300 + *w as i128)),
             ]),
         });
     }
@@ -216,10 +254,10 @@ fn judge(case: &Case, o: &mut Outcome) {
     let mut got: BTreeMap<(u64, u64), i128> = BTreeMap::new();
     let mut dup = false;
     for r in &rec.redeemers {
-        let val = match plutus::read_bytes(&r.data_raw) {
-            Ok(PData::Int(i)) => i.to_i128().unwrap_or(i128::MIN),
-            Ok(other) => {
-                o.violate(Violation::new("redeemer|data-kind", format!("redeemer data decoded as {other}")));
+        let val = match plutus::read_bytes(&r.data_raw).map(|d| unwrap(case.data_shape, &d)) {
+            Ok(Ok(v)) => v,
+            Ok(Err(what)) => {
+                o.violate(Violation::new(format!("redeemer|data-kind|{}", SHAPES[case.data_shape]), format!("redeemer data written as {} decoded as {what}", SHAPES[case.data_shape])));
                 i128::MIN
             }
             Err(e) => {
@@ -365,7 +403,7 @@ impl Prop for C08 {
         format!(
             "constant TIRs compiled directly: all injective assignments of a 5-ref pool (txid order != index order) to 1..4 script inputs of 1 or 2 \
              UTxOs (both iteration orders of every 2-UTxO set), all sequences of 0..3 mints/burns over 3 policies each with or without a redeemer, all sequences of 0..2 withdrawals \
-             over 3 reward accounts (key and script headers, ordered differently by bare credential), sequences that mint and burn one policy also with both sides cancelling, with / without an extra redeemer-less input; {}. Oracle: decoded witness-set map (tag, index) -> data = map built \
+             over 3 reward accounts (key and script headers, ordered differently by bare credential), sequences that mint and burn one policy also with both sides cancelling, with / without an extra redeemer-less input; {}; every redeemer's data also written as a constructor application of alternative 0/6/7/8/127/128/1000 and as a list (8 shapes x 8 item configurations). Oracle: decoded witness-set map (tag, index) -> data = map built \
              from the source items sorted as the ledger sorts (inputs by (txid, index), policies and reward accounts bytewise). Non-trivial = compiled \
              and decoded; distinct = distinct case descriptions.",
             if tier.is_thorough() { "full product of the three axes" } else { "each axis complete against a few fixed configurations of the other two" }
@@ -386,6 +424,17 @@ impl Prop for C08 {
         input_configs(&mut |c| ins.push(c));
         let mints = mint_seqs();
         let wds = wd_seqs();
+        // the data of every redeemer in every non-integer shape, for a few item configurations per purpose
+        for shape in 1..SHAPES.len() {
+            for inputs in [vec![vec![0]], vec![vec![3], vec![1, 2]]] {
+                for m in [vec![], vec![(false, 2, true), (true, 0, true)]] {
+                    for w in [vec![], vec![2, 0]] {
+                        let case = Case { inputs: inputs.clone(), set_ranks: vec![0; inputs.len()], mints: m.clone(), withdrawals: w.clone(), with_redeemerless_input: shape % 2 == 0, cancelling: false, data_shape: shape };
+                        sink.case(|| json!({"kind": "redeemers", "case": case}));
+                    }
+                }
+            }
+        }
         let mut emit = |inputs: &Vec<Vec<usize>>, m: &Vec<(bool, usize, bool)>, w: &Vec<usize>, plain: bool| {
             // every iteration order of every 2-UTxO set
             let doubles: Vec<usize> = inputs.iter().enumerate().filter(|(_, s)| s.len() == 2).map(|(i, _)| i).collect();
@@ -395,7 +444,7 @@ impl Prop for C08 {
                 for (bit, b) in doubles.iter().enumerate() {
                     ranks[*b] = (c >> bit) & 1;
                 }
-                let case = Case { inputs: inputs.clone(), set_ranks: ranks, mints: m.clone(), withdrawals: w.clone(), with_redeemerless_input: plain, cancelling: false };
+                let case = Case { inputs: inputs.clone(), set_ranks: ranks, mints: m.clone(), withdrawals: w.clone(), with_redeemerless_input: plain, cancelling: false, data_shape: 0 };
                 sink.case(|| json!({"kind": "redeemers", "case": case}));
                 // the same blocks naming one asset in one quantity, when a policy is both minted and burned
                 if c == 0 && m.iter().any(|(b, p, _)| *b && m.iter().any(|(b2, p2, _)| !*b2 && p2 == p)) {
